@@ -189,8 +189,43 @@ def expectation_check(G, ctx, w, method, M):
     ctx.count("expectation:" + method)
 
 
+def resample_after_extend(G, ctx):
+    """particles that carry their OWN arguments (after extend): the resampled particle must be a copy of its ancestor in every
+    field - choices, score, return value AND stored arguments - i.e. a coherent trace (Lean: C12_resample_trace_coherent; the
+    counterexample C12_resample_args_needed is what happens when the arguments are not gathered)"""
+    import jax
+    import jax.numpy as jnp
+    import jax.random as jr
+    from genjax.inference.smc import extend, init, resample
+    from props import c10
+    model, prop0, prop_t, obs, getx, qmean = c10.setup(G, False)
+    for method in ("systematic", "categorical"):
+        for N, key_int in ((4, 1), (6, 2)):
+            case = {"kind": "resample-after-extend", "method": method, "N": N, "key": key_int}
+            try:
+                k = jr.split(jr.key(ctx.seed * 50 + key_int), 3)
+                p0 = G.seed(lambda: init(model, (jnp.float32(0.0),), G.const(N), obs(0.6)))(k[0])
+                p1 = G.seed(lambda p: extend(p, model, p0.traces.get_retval(), obs(-0.4)))(k[1], p0)
+                p2 = G.seed(lambda p: resample(p, method=method))(k[2], p1)
+                ok = c10.particles_coherent(G, ctx, model, p2.traces, N, case, f"resample({method}) after extend")
+                # every leaf of particle j (arguments included) comes from ONE ancestor
+                leaves1 = [np.asarray(l) for l in jax.tree_util.tree_leaves((p1.traces.get_choices(), p1.traces.get_args(), p1.traces.get_retval()))]
+                leaves2 = [np.asarray(l) for l in jax.tree_util.tree_leaves((p2.traces.get_choices(), p2.traces.get_args(), p2.traces.get_retval()))]
+                for j in range(N):
+                    cands = [i for i in range(N) if all(np.allclose(l2[j], l1[i]) for l1, l2 in zip(leaves1, leaves2) if np.ndim(l1) >= 1 and l1.shape[0] == N)]
+                    if not cands and ok:
+                        ctx.property_failure(None, f"resample({method}) after extend: particle {j} is not a copy of any single input particle (some field was not gathered)", {**case, "particle": j})
+                        break
+            except Exception as ex:
+                impl.reset_handlers()
+                ctx.property_failure(None, f"resample after extend raised {type(ex).__name__}: {str(ex)[:160]}", case)
+            ctx.case(sample=case if N == 4 else None, nontrivial_key=("resample-after-extend", method, N))
+            ctx.count("resample-after-extend:" + method)
+
+
 def run(ctx, audit):
     G = impl.load()
+    resample_after_extend(G, ctx)
     rng = ctx.rng
     vecs = weight_vectors(rng, 90 if ctx.thorough else 48)
     k = ctx.seed * 1000
